@@ -1008,25 +1008,25 @@ package astits
 // io.Seeker shares them. Read may return fewer bytes than asked for without an error; ReadFull may not.
 //@ extern (io.Reader).Read
 //@   modifies rdPos(recv), rdFail(recv), elems(p)
-//@   ensures doc: 0 <= n && n <= len(p) && rdPos(recv) == old(rdPos(recv)) + n
-//@   ensures fail: (err != nil) == (rdFail(recv) != old(rdFail(recv))) && rdFail(recv) >= old(rdFail(recv))
+//@   ensures [C08,C18,C20,C03] doc: 0 <= n && n <= len(p) && rdPos(recv) == old(rdPos(recv)) + n
+//@   ensures [C08,C18,C20,C03] fail: (err != nil) == (rdFail(recv) != old(rdFail(recv))) && rdFail(recv) >= old(rdFail(recv))
 //@ extern io.ReadFull
 //@   modifies rdPos(r), rdFail(r), rdEnded(r), elems(buf)
-//@   ensures doc: 0 <= n && n <= len(buf) && rdPos(r) == old(rdPos(r)) + n && (err == nil ==> n == len(buf))
-//@   ensures eof: (err == io_EOF || err == io_ErrUnexpectedEOF ==> rdEnded(r) != 0) && (err == nil ==> rdEnded(r) == old(rdEnded(r)))
-//@   ensures fail: (err != nil) == (rdFail(r) != old(rdFail(r))) && rdFail(r) >= old(rdFail(r))
+//@   ensures [C08,C18,C20,C03] doc: 0 <= n && n <= len(buf) && rdPos(r) == old(rdPos(r)) + n && (err == nil ==> n == len(buf))
+//@   ensures [C08,C18,C20,C03] eof: (err == io_EOF || err == io_ErrUnexpectedEOF ==> rdEnded(r) != 0) && (err == nil ==> rdEnded(r) == old(rdEnded(r)))
+//@   ensures [C08,C18,C20,C03] fail: (err != nil) == (rdFail(r) != old(rdFail(r))) && rdFail(r) >= old(rdFail(r))
 //@ extern io.ReadAtLeast
 //@   modifies rdPos(r), rdFail(r), elems(buf)
-//@   ensures doc: 0 <= n && n <= len(buf) && rdPos(r) == old(rdPos(r)) + n && (err == nil ==> n >= min)
-//@   ensures fail: (err != nil) == (rdFail(r) != old(rdFail(r))) && rdFail(r) >= old(rdFail(r))
+//@   ensures [C08,C18,C20,C03] doc: 0 <= n && n <= len(buf) && rdPos(r) == old(rdPos(r)) + n && (err == nil ==> n >= min)
+//@   ensures [C08,C18,C20,C03] fail: (err != nil) == (rdFail(r) != old(rdFail(r))) && rdFail(r) >= old(rdFail(r))
 // bufio.Reader.Peek consumes nothing.
 //@ extern (*bufio.Reader).Peek
-//@   ensures doc: 0 <= len(result0) && len(result0) <= n && (result1 == nil ==> len(result0) == n) && allocated(result0)
+//@   ensures [C08,C18,C20,C03] doc: 0 <= len(result0) && len(result0) <= n && (result1 == nil ==> len(result0) == n) && allocated(result0)
 // io.Seeker: seeking to offset 0 from the start reports 0 and puts the reader back at its first byte.
 //@ extern (io.Seeker).Seek
 //@   modifies rdPos(recv), rdFail(recv)
-//@   ensures doc: result1 == nil && offset == 0 && whence == 0 ==> result0 == 0 && rdPos(recv) == 0
-//@   ensures fail: (result1 != nil) == (rdFail(recv) != old(rdFail(recv))) && rdFail(recv) >= old(rdFail(recv))
+//@   ensures [C08,C18,C20,C03] doc: result1 == nil && offset == 0 && whence == 0 ==> result0 == 0 && rdPos(recv) == 0
+//@   ensures [C08,C18,C20,C03] fail: (result1 != nil) == (rdFail(recv) != old(rdFail(recv))) && rdFail(recv) >= old(rdFail(recv))
 
 //@ func rewind
 //@   modifies rdPos(r), rdFail(r)
